@@ -21,10 +21,12 @@ type c19Case struct {
 	Argv    []string
 	Env     EnvState
 	Shape   string
+	Policy  int // index into policies
+	Stream  StreamPlan
 }
 
 func (c *c19Case) Describe() interface{} {
-	m := map[string]interface{}{"decl": c.Decl.Describe(), "spec": c.App.Root.Spec, "argv": c.Argv, "env": c.Env.Describe(), "bound_tokens": c.Tokens}
+	m := map[string]interface{}{"decl": c.Decl.Describe(), "spec": c.App.Root.Spec, "argv": c.Argv, "env": c.Env.Describe(), "bound_tokens": c.Tokens, "policy": policyName(policies[c.Policy]), "stream": c.Stream.String()}
 	if c.Second != nil {
 		m["second_decl"] = c.Second.Describe()
 		m["second_bound_tokens"] = c.Tokens2
@@ -139,6 +141,12 @@ func (c19Prop) genOne(t *Tape) *c19Case {
 	}
 	if nEnv == 0 && t.Draw(4) == 0 {
 		d.Short, d.NoSBU = true, true
+	} else if t.Draw(3) == 0 {
+		d.HideValue = true // what the help shows of the value must not change how the value is driven
+	}
+	c.Policy = t.Draw(3)
+	if t.Draw(4) == 0 {
+		c.Stream = drawStream(t)
 	}
 
 	// command-line tokens
@@ -237,7 +245,7 @@ func (c19Prop) genOne(t *Tape) *c19Case {
 	}
 	c.Argv = argv
 	root := &CmdDecl{Name: "app", Spec: spec, Decls: decls, Action: CB{Kind: CBReturn}}
-	c.App = &AppDecl{Root: root, Policy: flag.ContinueOnError}
+	c.App = &AppDecl{Root: root, Policy: policies[c.Policy]}
 	c.App.Finish()
 	return c
 }
@@ -295,6 +303,7 @@ func (c19Prop) Exec(cc Case, st *Stats) *Violation {
 
 func c19Prepare(c *c19Case, id int) *Prepared {
 	p := NewProc(id)
+	p.Stream = c.Stream
 	var inst *Instance
 	body := func() error {
 		inst = Build(c.App, p)
@@ -342,8 +351,19 @@ func c19Verdict(c *c19Case, p *Proc, inst *Instance, st *Stats) *Violation {
 		if ranAction {
 			return &Violation{Clause: "set-error-runs-action", Detail: "Set returned an error but the Action ran", Expected: "usage error", Observed: observed}
 		}
-		if p.End != EndReturned || p.Err == nil {
-			return &Violation{Clause: "set-error-usage-error", Detail: "Set returned an error: Run must return a usage error", Expected: "returned error", Observed: observed}
+		// a usage error ends the way the error policy says
+		ok := false
+		switch policies[c.Policy] {
+		case flag.ContinueOnError:
+			ok = p.End == EndReturned && p.Err != nil
+		case flag.ExitOnError:
+			ok = p.End == EndExited && p.ExitCode == 2
+		case flag.PanicOnError:
+			_, isErr := p.PanicVal.(error)
+			ok = p.End == EndPanicked && isErr
+		}
+		if !ok {
+			return &Violation{Clause: "set-error-usage-error", Detail: "Set returned an error: the invocation must end as a usage error under " + policyName(policies[c.Policy]), Expected: "usage error", Observed: observed}
 		}
 		st.Count("reach.set_error_became_usage_error")
 	} else {
